@@ -9,6 +9,7 @@ package main
 // Anything it cannot model becomes an `undecided` obligation: it never guesses.
 
 import (
+	"strconv"
 	"fmt"
 	"go/ast"
 	"go/constant"
@@ -289,6 +290,7 @@ type esProblem struct {
 }
 
 type ES struct {
+	derivedEmitters map[string]bool
 	c           *Ctx
 	info        *types.Info
 	instrT      *types.Interface
@@ -1108,6 +1110,22 @@ func (es *ES) assign(obj types.Object, pos token.Pos, rhs ast.Expr, st *esState)
 				st.env[obj] = &esValue{gen: len(st.gens) - 1}
 				return
 			}
+			// a helper of the generator that makes a sub-generator and sets its fields
+			if sel, isSel := call.Fun.(*ast.SelectorExpr); isSel {
+				if parent := es.genOf(sel.X, st); parent != nil {
+					if tl, fromRecv, kc, isCtor := es.ctorHelper(name); isCtor {
+						ng := &genState{name: obj.Name(), tail: tl, scopes: scopeVal{rel: false, k: 0}}
+						if fromRecv {
+							ng.scopes = parent.scopes
+						} else if kc != nil {
+							ng.scopes = scopeVal{rel: false, k: int(*kc)}
+						}
+						st.gens = append(st.gens, ng)
+						st.env[obj] = &esValue{gen: len(st.gens) - 1}
+						return
+					}
+				}
+			}
 		}
 		es.problem(pos, "generator assigned from an unmodelled expression", exprShort(rhs))
 	case es.isSeqType(t):
@@ -1284,7 +1302,175 @@ func (es *ES) execAssign(x *ast.AssignStmt, st *esState) []*esState {
 
 // emitterMethod: does the *Generator method emit instructions (directly or not)?
 func (es *ES) emitterMethod(name string) bool {
-	return strings.HasPrefix(name, "Generate") || strings.HasPrefix(name, "generate")
+	if strings.HasPrefix(name, "Generate") || strings.HasPrefix(name, "generate") {
+		return true
+	}
+	// whatever it is called: a method of the generator that emits into its receiver, directly or through
+	// another such method (derived once from the method bodies)
+	if es.derivedEmitters == nil {
+		es.derivedEmitters = map[string]bool{}
+		bodies := map[string]*ast.FuncDecl{}
+		for _, f := range es.c.Zygo.Syntax {
+			for _, d := range f.Decls {
+				if fd, ok := d.(*ast.FuncDecl); ok && fd.Body != nil && fd.Recv != nil && recvTypeName(fd.Recv.List[0].Type) == "Generator" {
+					bodies[fd.Name.Name] = fd
+				}
+			}
+		}
+		for changed := true; changed; {
+			changed = false
+			for n, fd := range bodies {
+				if es.derivedEmitters[n] {
+					continue
+				}
+				switch n {
+				case "AddInstruction", "AddInstructions", "Reset", "NewSubGenerator", "LookupKnownFunction", "GetLHS":
+					continue
+				}
+				recv := ""
+				if len(fd.Recv.List[0].Names) > 0 {
+					recv = fd.Recv.List[0].Names[0].Name
+				}
+				emits := false
+				ast.Inspect(fd.Body, func(x ast.Node) bool {
+					call, ok := x.(*ast.CallExpr)
+					if !ok {
+						return true
+					}
+					sel, ok := call.Fun.(*ast.SelectorExpr)
+					if !ok {
+						return true
+					}
+					id, ok := sel.X.(*ast.Ident)
+					if !ok || id.Name != recv {
+						return true
+					}
+					m := sel.Sel.Name
+					if m == "AddInstruction" || m == "AddInstructions" || strings.HasPrefix(m, "Generate") || strings.HasPrefix(m, "generate") || es.derivedEmitters[m] {
+						emits = true
+					}
+					return true
+				})
+				if emits {
+					es.derivedEmitters[n] = true
+					changed = true
+				}
+			}
+		}
+	}
+	return es.derivedEmitters[name]
+}
+
+// recursiveHelper: fn ("Generator.name") is a method of the generator that is not named like a form
+// generator (Generate... / generate...), emits, and calls itself.
+func (es *ES) recursiveHelper(fn string) bool {
+	if !strings.HasPrefix(fn, "Generator.") {
+		return false
+	}
+	name := strings.TrimPrefix(fn, "Generator.")
+	if strings.HasPrefix(name, "Generate") || strings.HasPrefix(name, "generate") || !es.emitterMethod(name) {
+		return false
+	}
+	fd := es.c.funcDecl(fn)
+	if fd == nil || fd.Body == nil || fd.Recv == nil || len(fd.Recv.List[0].Names) == 0 {
+		return false
+	}
+	recv := fd.Recv.List[0].Names[0].Name
+	rec := false
+	ast.Inspect(fd.Body, func(x ast.Node) bool {
+		if call, ok := x.(*ast.CallExpr); ok {
+			if sel, ok := call.Fun.(*ast.SelectorExpr); ok && sel.Sel.Name == name {
+				if id, ok := sel.X.(*ast.Ident); ok && id.Name == recv {
+					rec = true
+				}
+			}
+		}
+		return true
+	})
+	return rec
+}
+
+// ctorHelper: a method of the generator that makes a sub-generator, sets some of its fields from
+// constants or from the receiver, and returns it. Reports the tail flag and whether the scope counter is
+// taken over from the receiver.
+func (es *ES) ctorHelper(name string) (tail tailVal, scopesFromRecv bool, scopesConst *int64, ok bool) {
+	fd := es.c.funcDecl("Generator." + name)
+	if fd == nil || fd.Body == nil || fd.Recv == nil || len(fd.Recv.List[0].Names) == 0 {
+		return tailF, false, nil, false
+	}
+	recv := fd.Recv.List[0].Names[0].Name
+	v := ""
+	tail = tailF
+	for _, stmt := range fd.Body.List {
+		switch x := stmt.(type) {
+		case *ast.AssignStmt:
+			if len(x.Lhs) != 1 || len(x.Rhs) != 1 {
+				return tailF, false, nil, false
+			}
+			if id, isId := x.Lhs[0].(*ast.Ident); isId && v == "" {
+				call, isCall := x.Rhs[0].(*ast.CallExpr)
+				if !isCall {
+					return tailF, false, nil, false
+				}
+				fn := ""
+				switch f := call.Fun.(type) {
+				case *ast.Ident:
+					fn = f.Name
+				case *ast.SelectorExpr:
+					fn = f.Sel.Name
+				}
+				if fn != "NewSubGenerator" && fn != "NewGenerator" {
+					return tailF, false, nil, false
+				}
+				v = id.Name
+				continue
+			}
+			sel, isSel := x.Lhs[0].(*ast.SelectorExpr)
+			if !isSel {
+				return tailF, false, nil, false
+			}
+			if id, isId := sel.X.(*ast.Ident); !isId || id.Name != v || v == "" {
+				return tailF, false, nil, false
+			}
+			switch sel.Sel.Name {
+			case "Tail":
+				id, isId := x.Rhs[0].(*ast.Ident)
+				if !isId || (id.Name != "true" && id.Name != "false") {
+					return tailF, false, nil, false
+				}
+				if id.Name == "true" {
+					tail = tailT
+				}
+			case "scopes":
+				if rs, isSel := x.Rhs[0].(*ast.SelectorExpr); isSel && rs.Sel.Name == "scopes" {
+					if id, isId := rs.X.(*ast.Ident); isId && id.Name == recv {
+						scopesFromRecv = true
+						continue
+					}
+				}
+				if lit, isLit := x.Rhs[0].(*ast.BasicLit); isLit {
+					if k, err := strconv.ParseInt(lit.Value, 10, 64); err == nil {
+						scopesConst = &k
+						continue
+					}
+				}
+				return tailF, false, nil, false
+			case "funcname", "knownFunctions", "env", "self":
+			default:
+				return tailF, false, nil, false
+			}
+		case *ast.ReturnStmt:
+			if len(x.Results) != 1 {
+				return tailF, false, nil, false
+			}
+			if id, isId := x.Results[0].(*ast.Ident); !isId || id.Name != v {
+				return tailF, false, nil, false
+			}
+		default:
+			return tailF, false, nil, false
+		}
+	}
+	return tail, scopesFromRecv, scopesConst, v != ""
 }
 
 // execCall interprets a call. Returns true when the call emitted into a generator.
